@@ -352,6 +352,7 @@ SyntaxVisitor::Action DeclarationBinder::visitBasicTypeSpecifier(const BasicType
 
             case SyntaxKind::Keyword_signed:
                 if (!F_.inExplicitSignedOrUnsignedTySpec_) {
+                    F_.inExplicitSignedOrUnsignedTySpec_ = true;
                     switch (curBasicTyK) {
                         case BasicTypeKind::Char:
                             curBasicTy->resetBasicTypeKind(BasicTypeKind::Char_S);
@@ -371,12 +372,12 @@ SyntaxVisitor::Action DeclarationBinder::visitBasicTypeSpecifier(const BasicType
                         default:
                             break;
                     }
-                    F_.inExplicitSignedOrUnsignedTySpec_ = true;
                 }
                 break;
 
             case SyntaxKind::Keyword_unsigned:
                 if (!F_.inExplicitSignedOrUnsignedTySpec_) {
+                    F_.inExplicitSignedOrUnsignedTySpec_ = true;
                     switch (curBasicTyK) {
                         case BasicTypeKind::Char:
                             curBasicTy->resetBasicTypeKind(BasicTypeKind::Char_U);
@@ -396,7 +397,6 @@ SyntaxVisitor::Action DeclarationBinder::visitBasicTypeSpecifier(const BasicType
                         default:
                             break;
                     }
-                    F_.inExplicitSignedOrUnsignedTySpec_ = true;
                 }
                 break;
 
